@@ -218,6 +218,28 @@ Theorem C08_propose_never_panics : forall change fuel db e tip acct pay sp oo pe
   propose_transfer change fuel db e tip acct pay sp oo permitted pol lp lock canon <> Panic.
 Proof. exact propose_transfer_no_panic. Qed.
 
+(** *** Storing a transaction releases exactly the locks of the outputs it spends *)
+Theorem C08_store_releases_exactly : forall refs db,
+  rrefs (unlock_spent refs db) = rrefs db
+  /\ forall r, In r db ->
+       (In (r_pool r, r_id r) refs -> In (clear_lock r) (unlock_spent refs db))
+       /\ (~ In (r_pool r, r_id r) refs -> In r (unlock_spent refs db)).
+Proof. exact unlock_spent_exact. Qed.
+
+Theorem C08_store_keeps_other_locks : forall refs db owner expiry r,
+  In r db -> held owner expiry r -> ~ In (r_pool r, r_id r) refs ->
+  In r (unlock_spent refs db) /\ held owner expiry r.
+Proof. exact store_keeps_other_locks. Qed.
+
+Theorem C08_store_keeps_other_utxo_locks : forall ids udb u,
+  In u udb -> ~ In (u_id u) ids -> In u (unlock_spent_utxos ids udb).
+Proof. exact store_keeps_other_utxo_locks. Qed.
+
+Theorem C08_bridge_store : forall db udb target refs tids post upost,
+  run_case (CStore db udb target refs tids post upost) = true ->
+  prop_case (CStore db udb target refs tids post upost) = true.
+Proof. exact bridge_store. Qed.
+
 (** *** Transparent inputs (coins) *)
 
 (** The regenerated WHERE clause of spendable_transparent_outputs_query (as instantiated by
